@@ -39,6 +39,20 @@ PROPS = {
         ],
         "gen": ["EffectOrder", "Consts"],
     },
+    "C09": {
+        "level_text": "Lean 4 theorems over an executable model of cut points, planning, the auto job and the scheduler decision as functions of the thread's truth frames: cut points are exactly the k*stride-th messages (seq and id of that message), the latest multiples first, at most clamp(limit,1,32); a cut point is checkpointed exactly when a checkpoint frame for that seq exists, the latest by stream order winning; non-message frames do not move cut points; the plan is the unchecked cut points among the latest 32, capped; an auto run creates precisely the planned checkpoints in sorted order between exactly one job-spawned and one job-ended frame, continuing the numbering; with nothing to do or as a dry run it appends nothing; after a run every planned cut is checkpointed; scheduler: silent on noop/dry run, one decision frame when a job is in flight, job-spawned then decision otherwise. Tied to the code by differential correspondence: random histories (messages interleaved with other frames, manual checkpoints on and off boundaries, jobs left in flight) x operation sequences with stride / limit / max_new in {None,0,1,2,3,7,32,33,10000} and all boolean flags, responses (message count, every cut point field, planned list, decision/status) and the kinds/seqs/to_seq of appended frames compared with the compiled model; plus oracles: summaries readable with matching coverage, manual checkpoints only on message boundaries, and the same job on two byte-copies of a store writes the same summary text.",
+        "level_note": "Lean kernel; the summary renderer is treated as a deterministic function and checked by the two-copies oracle (artifact ids minted during a run are canonicalised by position); the in-flight scan is modelled over the whole thread (the code scans a 512-frame tail; histories stay below it); cache fast paths inside cut_points are the subject of C04.",
+        "technique": "Lean 4 proof (arithmetic on ordinals, fold invariants, sort/permutation lemmas) + differential correspondence check",
+        "design_ref": "§5 C09",
+        "trusted_base": COMMON_TB + [
+            "modelled, not verified: replay_events returns the thread's frames in order (C03/C04); artifact store writes succeed",
+        ],
+        "assumptions": [
+            "threads shorter than the 512-frame in-flight scan window in the correspondence run",
+            "concurrent schedule/auto calls are serialised by the store's append lock (C01); the model is sequential",
+        ],
+        "gen": [],
+    },
     "C10": {
         "level_text": "Lean 4 theorems over an executable model of the cut resolution shared by branch and handoff and of their effect on the truth log: the recorded cut lies within the source thread as it was; from_seq names the last message at or before it; no selector means the head and the last message; from_message_id names the requested message and covers every run-spawned / run-ended frame that refers to it; both selectors / out of range / unknown id / id of a non-message frame / unknown thread are refused; on success exactly two frames are appended, none on the source (or any other existing) thread, the new thread is [creation@0, lineage@1]; a successful handoff always carries a resolvable summary. Tied to the code by differential correspondence: random source histories x every selector shape x {branch, handoff with markdown / existing / missing / malformed artifact id / neither} through the real ContinuityStore, result and error class compared with the compiled model; plus implementation oracles on the log bytes (previous content is a prefix; source thread frames unchanged; child prefix; recorded artifact exists; a failed call appends nothing).",
         "level_note": "Lean kernel; the artifact store is an abstract predicate (existence of a blob); UUIDs canonicalised by first occurrence; the creation race (a client addressing the child between its creation frame and its lineage frame) is the subject of C01, not of this sequential model.",
